@@ -1092,6 +1092,9 @@ class Interp:
             inner_ty = ty.get('ty', {'k': 'other'})
             cell = st.new_cell(self.json_const(st, val['ref_to'], inner_ty))
             return RefV(cell)
+        if 'tuple' in val:
+            tys = ty.get('tys') or [{'k': 'other'}] * len(val['tuple'])
+            return TupleV([self.json_const(st, v, t_) for v, t_ in zip(val['tuple'], tys)])
         if 'struct' in val:
             adt = self.facts.adts.get(val['struct'])
             names = [f['name'] for f in adt['variants'][0]['fields']] if adt else [str(i) for i in range(len(val['fields']))]
@@ -2408,6 +2411,17 @@ class Interp:
                 elif 'ty' in a:
                     genv[g['name']] = self.subst_ty(a['ty'], fr.genv)
             nf = Frame(fn, fn, genv, fr.depth + 1)
+            if '{closure' in target and len(args) == 2 and isinstance(args[1], (TupleV, UnitV)) and (cal.get('def') or '').rsplit('::', 1)[-1] in ('call', 'call_mut', 'call_once') \
+                    and fn.get('arg_count', 0) == 1 + (len(args[1].items) if isinstance(args[1], TupleV) else 0):
+                # a closure called directly (`settle(None, v)`): the arguments travel as one tuple and are spread over the
+                # parameters of the closure body; a by-value environment (`call_once`) is passed as it is
+                env = args[0]
+                l1 = (fn.get('locals') or [None, {}])[1].get('ty') or {}
+                if l1.get('k') == 'ref' and not isinstance(env, RefV):
+                    env = RefV(st.new_cell(env), (), True)
+                elif l1.get('k') != 'ref' and isinstance(env, RefV):
+                    env = self.deref(st, env)
+                args = [env] + (list(args[1].items) if isinstance(args[1], TupleV) else [])
             for i, a in enumerate(args):
                 nf.locals[i + 1] = st.new_cell(a)
             nf.dest = t['dest']
